@@ -32,7 +32,7 @@ def SL(name, builder, K, timeout_s=1500, params=None):
 
 def units(tier):
     t = 900 if tier == "thorough" else 300
-    return [
+    u = [
         SL("slice.wakeup_vs_submit", "x4_wakeup_vs_submit", 40),
         SL("slice.shutdown_nowait_vs_wait", "x5_shutdown_nowait_vs_wait", 30),
         SL("slice.worker_exit_vs_submit", "x3_worker_exit_vs_submit", 50),
@@ -54,3 +54,9 @@ def units(tier):
         H("C01", "lokyverif.harness.c02_broken", "check_wait_table", 1200 if tier == "thorough" else 400,
           ["loky.process_executor:_ExecutorManagerThread.wait_result_broken_or_wakeup"], "readiness subset symbolic"),
     ]
+    if tier == "thorough":
+        u += [SL("slice.terminate_broken.n3", "x6_terminate_broken", 56, timeout_s=3000, params={"n": 3})]
+        u += [SL("slice.dispatch_vs_cancel.n3", "x1_dispatch_vs_cancel", 24, params={"n": 3}),
+              SL("slice.dispatch_vs_cancel.n4", "x1_dispatch_vs_cancel", 32, params={"n": 4}),
+              SL("slice.feeder_error_vs_dispatch.n3", "x2_feeder_error_vs_dispatch", 38, params={"n": 3})]
+    return u
